@@ -151,6 +151,22 @@ class Categorize(Factory, Container):
         """Attempt to get key ``x``, returning an alternative if it does not exist."""
         return self.bins.get(x, default)
 
+    def _checkContent(self, other):
+        """Raise if the sub-aggregators of ``other`` could not be added to this container's.
+
+        Bins present on one side only are adopted without being added to anything, so their
+        type and structure have to be compared explicitly (using the value template, the first
+        bin, or at least the declared content type).
+        """
+        mine = self.value if self.value is not None else next(iter(self.bins.values()), None)
+        theirs = other.value if other.value is not None else next(iter(other.bins.values()), None)
+        if mine is not None and theirs is not None:
+            mine + theirs  # raises ContainerException if they are incompatible
+        elif self.contentType != other.contentType:
+            raise ContainerException(
+                f"cannot add {self.name}s because content type differs ({self.contentType} vs {other.contentType})"
+            )
+
     @inheritdoc(Container)
     def zero(self):
         return Categorize(self.quantity, self.value)
@@ -158,6 +174,7 @@ class Categorize(Factory, Container):
     @inheritdoc(Container)
     def __add__(self, other):
         if isinstance(other, Categorize):
+            self._checkContent(other)
             out = Categorize(self.quantity, self.value)
             out.entries = self.entries + other.entries
             out.bins = {}
@@ -175,6 +192,7 @@ class Categorize(Factory, Container):
     @inheritdoc(Container)
     def __iadd__(self, other):
         if isinstance(other, Categorize):
+            self._checkContent(other)
             self.entries += other.entries
             for k in self.keySet.union(other.keySet):
                 if k in self.bins and k in other.bins:
